@@ -22,7 +22,7 @@ func finalizeOutput(obj any) any {
 
 func finalizeMap(obj map[string]any) map[string]any {
 	newObj := make(map[string]any, len(obj))
-	for k, v := range obj {
+	for k, v := range sortedMap(obj) {
 		newObj[finalizeString(k)] = finalizeOutput(v)
 	}
 
